@@ -12,8 +12,9 @@
 (*  Model   one action per real step: StartReq, Checkout (probe, discard-if-dropped), Send,      *)
 (*          Serve (scripted peer), RecvHead (http.client state machine: a prior unfinished       *)
 (*          response => ResponseNotReady), Preload, Return, Fail (ProtocolError -> discard ->    *)
-(*          retry / MaxRetryError), ReadBody (read(k)) / ReadAll / StreamStep / Drain / Release  *)
-(*          / Close / Ignore, Drop (the caller lets go of the response object: IOBase.__del__ ->   *)
+(*          retry / MaxRetryError), ReadBody (read(k)) / ReadAll / StreamStep / Abandon (the     *)
+(*          caller stops iterating stream(): GeneratorExit at the yield) / Read1 (read1(big): what *)
+(*          the reader holds, else ONE raw read) / Drain / Release / Close / Ignore, Drop (the caller lets go of the response object: IOBase.__del__ ->   *)
 (*          close()), ServerStray / ServerSmuggle / ServerEOF (peer activity on the idle         *)
 (*          connection before the next checkout), NextReq, Finish.                               *)
 (*                                                                                              *)
